@@ -26,7 +26,15 @@ pub fn verify_event<V: Fv>(msg: &[u8], sigb: &[u8], pkb: &[u8], tag: &str) -> Va
         }
     };
     json!({"ev":"verify","n":V::N,"msg":bytes_json(msg),"sig":bytes_json(sigb),"pk":bytes_json(pkb),
-           "sig_ok":sig_ok,"pk_ok":pk_ok,"res":res,"tag":tag,"detail":detail})
+           "sig_ok":sig_ok,"pk_ok":pk_ok,"res":res,"tag":tag,"detail":detail,"honest":false})
+}
+
+/// A verify event for a signature that `sign` itself returned under the matching key: the trace
+/// spec additionally demands acceptance (C01).
+pub fn honest_event<V: Fv>(msg: &[u8], sigb: &[u8], pkb: &[u8], tag: &str) -> Value {
+    let mut e = verify_event::<V>(msg, sigb, pkb, tag);
+    e["honest"] = Value::Bool(true);
+    e
 }
 
 fn msg_of_len(rng: &mut impl RngCore, len: usize) -> Vec<u8> {
